@@ -82,6 +82,11 @@ class C20(Prop):
             contents = [rng.choice(['int a;', '', '  b();', '// c', 'x']) for _ in range(rng.randint(0, 4))]
             blocks.append({'op': 'cpp.struct', 'kw': rng.choice(['struct', 'class']), 'name': rng.choice(['S', 'MyStruct']), 'contents': contents})
             blocks.append({'op': 'cpp.namespace', 'ids': [rng.choice(['My', 'Project', 'XY', '_a']) for _ in range(rng.randint(0, 3))], 'contents': contents})
+            if rng.random() < 0.5:
+                # the contents block carries a header of its own (an access specifier, a forward declaration)
+                hdr = [rng.choice(['public:', 'struct Fwd;', '// h', 'private:']) for _ in range(rng.randint(1, 2))]
+                blocks[-1] = dict(blocks[-1], header=hdr)
+                blocks[-2] = dict(blocks[-2], header=hdr)
         for _ in range(n // 4):
             k = rng.choice(['sysinc', 'projinc', 'membervar', 'access', 'typedesc'])
             c = {'op': 'cpp.misc', 'kind': k}
@@ -190,11 +195,11 @@ class C20(Prop):
                 d = Destructor(Class(case['scope']), case['override'], case['init'], case['contents'])
             return {'decl': d.as_decl, 'def': d.as_def}
         if op == 'cpp.struct':
-            tb = TextBlock()
+            tb = TextBlock(header=list(case['header'])) if case.get('header') else TextBlock()
             tb.lines = list(case['contents'])
             return str((Struct if case['kw'] == 'struct' else Class)(case['name'], tb))
         if op == 'cpp.namespace':
-            tb = TextBlock()
+            tb = TextBlock(header=list(case['header'])) if case.get('header') else TextBlock()
             tb.lines = list(case['contents'])
             return str(Namespace(NamespaceIds(list(case['ids'])), tb))
         if op == 'cpp.misc':
